@@ -1232,7 +1232,7 @@ Lemma create_raw_reserved st r t st' :
 Proof.
   unfold create_raw. destruct (create_raw_sel r) as [[t0 ids]|e|] eqn:Hs; try discriminate.
   intros H. injection H as <- <-. cbn [w_reserved]. f_equal.
-  unfold create_raw_sel in Hs.
+  unfold create_raw_sel, create_raw_gen in Hs.
   repeat match type of Hs with
   | match ?x with _ => _ end = _ => destruct x eqn:?; try discriminate
   | (if ?x then _ else _) = _ => destruct x eqn:?; try discriminate
@@ -1304,26 +1304,34 @@ Qed.
 
 Definition ksum (ks : list kout) : Z := fold_right (fun k s => k_amt k + s) 0 ks.
 
-Lemma construct_tx_in_ok lock : forall ins acc senders total tins snd' tot,
-  construct_tx_in lock ins acc senders total = Ok (tins, snd', tot) ->
+Lemma construct_tx_in_ok dc lock : forall ins seen acc senders total tins snd' tot,
+  construct_tx_in dc lock ins seen acc senders total = Ok (tins, snd', tot) ->
   exists ks, ins = map MOut ks /\
     Forall (fun k => k_parse k = true /\ k_owned k = true) ks /\
     map fst tins = map fst acc ++ map k_id ks /\ snd' = senders ++ map k_sh ks /\
-    tot = total + ksum ks /\ length tins = (length acc + length ks)%nat.
+    tot = total + ksum ks /\ length tins = (length acc + length ks)%nat /\
+    (dc = true -> NoDup (map k_id ks) /\ forall id, In id (map k_id ks) -> ~ In id seen).
 Proof.
-  induction ins as [|i rest IH]; intros acc senders total tins snd' tot H; simpl in H.
-  - injection H as <- <- <-. exists []. simpl. rewrite !app_nil_r. repeat split; auto; lia.
+  induction ins as [|i rest IH]; intros seen acc senders total tins snd' tot H; simpl in H.
+  - injection H as <- <- <-. exists []. simpl. rewrite !app_nil_r. repeat split; auto; try lia.
+    constructor.
   - destruct i as [| | |k]; try discriminate.
+    destruct (dc && memZ (k_id k) seen)%bool eqn:Hd; [discriminate|].
     destruct (negb (k_parse k)) eqn:Hp; [discriminate|].
     destruct (negb (k_owned k)) eqn:Ho; [discriminate|].
-    destruct (seq_of lock (k_class k) (k_frozen k) (k_height k) (k_mined k)) as [s|e|]; try discriminate.
     destruct (max_amount <? total + k_amt k); [discriminate|].
-    apply IH in H. destruct H as [ks [E [Hf [Hids [Hs [Ht Hl]]]]]].
+    apply IH in H. destruct H as [ks [E [Hf [Hids [Hs [Ht [Hl Hnd]]]]]]].
     exists (k :: ks). subst rest. apply negb_false_iff in Hp, Ho. repeat split; auto.
     + rewrite Hids, map_app, <- app_assoc. reflexivity.
     + rewrite Hs, <- app_assoc. reflexivity.
     + simpl. lia.
     + rewrite Hl, app_length. simpl. lia.
+    + destruct (Hnd H) as [Hn Hs']. simpl. constructor; auto.
+      intros Hin. apply (Hs' _ Hin). now left.
+    + intros id Hid Hseen. destruct (Hnd H) as [Hn Hs']. subst dc. simpl in Hd.
+      destruct Hid as [<-|Hid].
+      * apply memZ_false in Hd. contradiction.
+      * apply (Hs' _ Hid). now right.
 Qed.
 
 Lemma wrap64_id z : 0 <= z < 2 ^ 63 -> wrap64 z = z.
@@ -1392,10 +1400,11 @@ Qed.
 Definition mreq_wf (r : mreq) : Prop := Z.of_nat (length (m_subfee r)) < 2 ^ 31.
 
 (* everything a successful manual creation guarantees *)
-Theorem manual_ok r t ids : mreq_wf r ->
-  create_raw_sel r = Ok (t, ids) ->
+Theorem manual_ok dc r t ids : mreq_wf r ->
+  create_raw_gen dc r = Ok (t, ids) ->
   exists ks change,
     m_ins r = map MOut ks /\ ids = map k_id ks /\ map fst (t_ins t) = map k_id ks /\
+    (dc = true -> NoDup (map k_id ks)) /\ ks <> [] /\
     Forall (fun k => k_parse k = true /\ k_owned k = true /\ k_mined k = true) ks /\
     ksum ks = sum_outs (t_outs t) + t_fee t /\
     (let nsel := Z.of_nat (length (m_subfee r)) in
@@ -1408,20 +1417,19 @@ Theorem manual_ok r t ids : mreq_wf r ->
         change = [(std_dest (match m_change r with Some a => a | None => hd 0 (map k_sh ks) end), c)]) /\
      Forall (fun o => is_dust std_pk_len (snd o) = false) (t_outs t)).
 Proof.
-  intros Hwf H. unfold create_raw_sel in H.
-  destruct (construct_tx_in (m_locktime r) (m_ins r) [] [] 0) as [[[tins senders] total_in]|e|] eqn:Hc;
+  intros Hwf H. unfold create_raw_gen in H.
+  destruct (construct_tx_in dc (m_locktime r) (m_ins r) [] [] [] 0) as [[[tins senders] total_in]|e|] eqn:Hc;
     try discriminate.
-  apply construct_tx_in_ok in Hc. destruct Hc as [ks [Eins [Hown [Hids [Hsnd [Htot Hlen]]]]]].
+  apply construct_tx_in_ok in Hc. destruct Hc as [ks [Eins [Hown [Hids [Hsnd [Htot [Hlen Hnd]]]]]]].
   simpl in Hids, Hsnd, Htot, Hlen.
-  assert (Hca : exists caddr caddr_ok,
-     (match m_change r with
-      | Some c => Ok (c, m_change_ok r)
-      | None => match senders with s :: _ => Ok (s, true) | [] => Panic end end) = Ok (caddr, caddr_ok) /\
-     caddr = match m_change r with Some a => a | None => hd 0 (map k_sh ks) end).
-  { destruct (m_change r) as [a|]; [exists a, (m_change_ok r); auto|].
-    destruct senders as [|s0 st0]; [discriminate H|]. exists s0, true. split; auto.
-    rewrite <- Hsnd. reflexivity. }
-  destruct Hca as [caddr [caddr_ok [Hca Ecaddr]]]. rewrite Hca in H.
+  destruct senders as [|s0 srest] eqn:Esend; [discriminate|]. rewrite <- Esend in *.
+  assert (Hksne : ks <> []).
+  { intros ->. simpl in Hsnd. congruence. }
+  assert (Hndk : dc = true -> NoDup (map k_id ks)) by (intros Hdc; now destruct (Hnd Hdc)).
+  set (caddr := match m_change r with Some c => c | None => s0 end) in *.
+  set (caddr_ok := match m_change r with Some _ => m_change_ok r | None => true end) in *.
+  assert (Ecaddr : caddr = match m_change r with Some a => a | None => hd 0 (map k_sh ks) end).
+  { unfold caddr. destruct (m_change r); auto. rewrite <- Hsnd, Esend. reflexivity. }
   destruct (manual_fee (m_ins r) (Z.of_nat (length (m_amounts r)))) as [fee0|e|] eqn:Hf0; try discriminate.
   apply manual_fee_ok in Hf0. destruct Hf0 as [Ef0 Hmined].
   assert (Hks : Forall (fun k => k_parse k = true /\ k_owned k = true /\ k_mined k = true) ks).
@@ -1508,22 +1516,33 @@ Qed.
 
 (* ================================================================== part 9: witnesses *)
 
-(* C02_manual_no_dup: refuted. The same explicit input twice is accepted and counted twice: a
-   wallet owning one coin of 100000 builds a transaction paying 150000 + 45540 change, fee 4460.
-   (Replayed on the real wallet: harness/cmd/c02 corpus scenario 1.) *)
+(* C02_manual_no_dup was refuted for the code as first found: the same explicit input twice was
+   accepted and counted twice — a wallet owning one coin of 100000 built a transaction paying
+   150000 + 45540 change, fee 4460 (replayed on the real wallet: harness/cmd/c02 corpus scenario 1).
+   Repaired in /repo by 3588e0f; [create_raw_sel_unfixed] is the model of the old code. *)
 Definition dup_coin : kout := mkK 1 100000 1 0 0 6 true true true.
 Definition dup_req : mreq := mkM [MOut dup_coin; MOut dup_coin] [(4, 150000)] true 0 None true [].
 Definition dup_tx : otx := mkTx [(1, max_seq); (1, max_seq)] [(std_dest 4, 150000); (std_dest 1, 45540)] 4460.
 
+(* C02_manual_no_dup, for the repaired code: no output is spent twice *)
+Theorem manual_no_dup r t ids : mreq_wf r ->
+  create_raw_sel r = Ok (t, ids) -> NoDup (map fst (t_ins t)).
+Proof.
+  intros Hwf H. destruct (manual_ok true r t ids Hwf H) as [ks [ch [_ [_ [Hids [Hnd _]]]]]].
+  rewrite Hids. now apply Hnd.
+Qed.
+
 Lemma manual_no_dup_refuted :
-  exists r t ids, mreq_wf r /\ create_raw_sel r = Ok (t, ids) /\ ~ NoDup (map fst (t_ins t)) /\
+  exists r t ids, mreq_wf r /\ create_raw_sel_unfixed r = Ok (t, ids) /\ ~ NoDup (map fst (t_ins t)) /\
+    create_raw_sel r = Err EInvalid /\
     (* the only coin involved is worth less than what the transaction pays out *)
     (forall k, In (MOut k) (m_ins r) -> k = dup_coin) /\ k_amt dup_coin < sum_outs (t_outs t).
 Proof.
-  exists dup_req, dup_tx, [1; 1]. split; [|split; [|split; [|split]]].
+  exists dup_req, dup_tx, [1; 1]. split; [|split; [|split; [|split; [|split]]]].
   - unfold mreq_wf. simpl. lia.
   - vm_compute. reflexivity.
   - simpl. intros H. inversion H as [|x l Hn _]; subst. apply Hn. now left.
+  - vm_compute. reflexivity.
   - intros k [H|[H|[]]]; now injection H as <-.
   - vm_compute. reflexivity.
 Qed.
@@ -1787,12 +1806,12 @@ Proof.
               eapply perm_trans; [|apply Permutation_cons_append].
               simpl. apply perm_skip. apply Permutation_sym. apply Permutation_middle.
            ++ intros _. apply adjust_heap; auto; try lia.
-              ** simpl in *. lia.
               ** split.
                  --- intros p _ Hp0 c vp vc Hc Hvp Hvc. destruct p as [|p]; [lia|].
                      assert (c = S (c - 1))%nat as Ec by lia. rewrite Ec in Hvc. simpl in Hvp, Hvc.
                      apply (Hh (S p) ltac:(lia) c vp vc); auto. rewrite Ec. simpl. exact Hvc.
                  --- intros pp c vpp vc _ Hpar. lia.
+              ** pose proof (Nat.mul_div_le k 2 ltac:(lia)). simpl in Hk. lia.
            ++ intros x0 y Hx0 Hy. apply (Permutation_in _ Hap) in Hy.
               destruct Hx0 as [<-|Hx0].
               ** destruct Hy as [<-|Hy]; [lia|]. apply Hroot. now right.
@@ -1814,9 +1833,8 @@ Proof.
   { induction l0 as [|x t IH]; intros s P Hs; simpl; [now rewrite app_nil_r|].
     replace (P ++ x :: t) with ((P ++ [x]) ++ t) by (now rewrite <- app_assoc).
     apply IH. now apply submit_topk. }
-  apply (H l (mkTk [] None) []). exists []. simpl. repeat split; auto; try lia.
-  - intros _ p _ c vp vc _ Hvp. destruct p; discriminate.
-  - intros x y [].
+  apply (H l (mkTk [] None) []). exists []. simpl. repeat split; auto; try lia;
+    try (intros _ p _ c vp vc _ Hvp; destruct p; discriminate); try (intros x y []).
 Qed.
 
 (* a group of at most |base| coins never beats the heap: threshold argument *)
@@ -1878,7 +1896,7 @@ Proof.
       * simpl in Hk. subst k. destruct T; [|simpl in Hl; lia]. simpl in *. lia.
       * assert (Hroot : forall y, In y (r :: t) -> amt r <= amt y).
         { intros y Hy. apply In_nth_error in Hy. destruct Hy as [j Hj].
-          rewrite Eb in Hh. apply (root_min (r :: t) r (Hh Hk) eq_refl j y Hj). }
+          apply (root_min (r :: t) r (Hh Hk) eq_refl j y Hj). }
         assert (sum T <= sum (r :: t)); [|lia].
         apply (threshold_max (r :: t) rest T (amt r)); auto.
         -- inversion Hbpos; auto.
@@ -1887,3 +1905,59 @@ Proof.
 Qed.
 
 End HeapProofs.
+
+(* ================================================================== part 11: funds within the input cap *)
+
+(* C02_sufficient_succeeds: if some group of at most K eligible coins covers the outputs, the
+   largest fee target of the loop and one MinRelayTxFee of slack, creation succeeds.
+   (ErrOverfullUtxo belongs to the insufficient-funds family: it is what the code answers when the
+   wallet has at least K eligible coins and the K kept ones do not suffice.) *)
+Theorem sufficient_succeeds st r : areq_wf r -> req_valid st r ->
+  usum (elig st r) <= max_amount ->
+  fmax_of st r + sum_outs (a_outs r) + min_relay <= max_amount ->
+  (exists T, subperm T (elig st r) /\ (length T <= sel_k)%nat /\
+             fmax_of st r + sum_outs (a_outs r) + min_relay <= usum T) ->
+  exists t st', auto_create st r = Ok (t, st').
+Proof.
+  intros Hwf Hv Htot Hcap [T [Hs [Hl Hsum]]].
+  apply sufficient_topk; auto. intros w Hw.
+  apply (top_k_covers utxo u_amt sel_k w (elig st r) T); auto; try lia.
+  apply pos_nonneg. apply eligible_pos.
+Qed.
+
+(* C02_insufficient_fails: an insufficient-funds (or overfull) answer means that no group of at
+   most K eligible coins reaches outputs + largest fee target + MinRelayTxFee *)
+Theorem insufficient_fails st r e : areq_wf r ->
+  auto_create st r = Err e -> e = EInsufficient \/ e = EOverfull ->
+  forall T, subperm T (elig st r) -> (length T <= sel_k)%nat ->
+            usum T < fmax_of st r + sum_outs (a_outs r) + min_relay.
+Proof.
+  intros Hwf H He T Hs Hl.
+  destruct (insufficient_topk st r e Hwf H He) as [w [Hw Hlt]].
+  destruct (Z_lt_le_dec (usum T) (fmax_of st r + sum_outs (a_outs r) + min_relay)) as [|Hge]; auto.
+  exfalso.
+  assert (w <= usum (top_k u_amt sel_k w (elig st r))); [|lia].
+  apply (top_k_covers utxo u_amt sel_k w (elig st r) T); auto; try lia.
+  apply pos_nonneg. apply eligible_pos.
+Qed.
+
+Lemma firstn_subperm {A} n (l : list A) : subperm (firstn n l) l.
+Proof. exists (skipn n l). rewrite firstn_skipn. apply Permutation_refl. Qed.
+
+(* the check's classification of an insufficient-funds answer never says "beyond the window" for
+   the model: class 2 contradicts insufficient_fails *)
+Theorem insufficient_class st r e : areq_wf r ->
+  auto_create st r = Err e -> e = EInsufficient \/ e = EOverfull -> auto_slack_class st r <> 2.
+Proof.
+  intros Hwf H He. unfold auto_slack_class.
+  fold (req_addrs st r). fold (elig st r).
+  destruct (negb (valid_prefix _ _ _ _ _ _ _ _)); [discriminate|].
+  destruct (cap_funds (elig st r) <? _) eqn:Hc; [discriminate|]. apply Z.ltb_ge in Hc.
+  exfalso. unfold cap_funds in Hc.
+  assert (Hlt := insufficient_fails st r e Hwf H He (firstn sel_k (sort_desc u_amt (elig st r)))).
+  assert (usum (firstn sel_k (sort_desc u_amt (elig st r))) < fmax_of st r + sum_outs (a_outs r) + min_relay).
+  { apply Hlt.
+    - eapply subperm_trans; [apply firstn_subperm|]. apply subperm_perm. apply sort_desc_perm.
+    - apply firstn_le_length. }
+  unfold fmax_of in *. unfold fmax in Hc. lia.
+Qed.
